@@ -100,7 +100,9 @@ VARIANT_ENTRY_POINTS = set()
 VARIANT_ENTRY_POINTS |= {"bottleneck", "wasserstein", "heat", "sliced_wasserstein", "persistent_entropy", "transform",
                         "gaussian", "bvn_cdf", "sbvn_cdf", "uniform", "norm_cdf", "death_vector", "linear_ramp", "persistence"}
 VARIANT_ENTRY_POINTS |= {"PersLandscapeExact", "PersLandscapeApprox"}
-VARIANT_NAMES = ["fortran-order", "strided-view", "read-only", "negative-stride-view", "reused-buffer"]
+ELEMENTWISE_ENTRY_POINTS = {"gaussian", "bvn_cdf", "sbvn_cdf", "uniform", "norm_cdf", "linear_ramp", "persistence"}
+VARIANT_NAMES = ["fortran-order", "strided-view", "read-only", "negative-stride-view", "reused-buffer",
+                 "byte-swapped", "float32-if-exact", "float16-if-exact"]
 _BUFFERS = {}
 
 
@@ -140,7 +142,21 @@ def _variant_of(x, kind, depth=0):
             y = x.copy()
             y.setflags(write=False)
             return y
-        return x[::-1].copy()[::-1]
+        if kind == 3:
+            return x[::-1].copy()[::-1]
+        if kind == 5:
+            # the same values in the other byte order (arrays read from files / buffers of another endianness)
+            return x.astype(x.dtype.newbyteorder()) if x.dtype.kind in "fiu" and x.dtype.itemsize > 1 else x
+        if kind in (6, 7):
+            # the same values in a narrower floating type, only where every finite value is exactly representable there
+            nt = np.float32 if kind == 6 else np.float16
+            if x.dtype.kind == "f" and x.dtype.itemsize > np.dtype(nt).itemsize:
+                with np.errstate(all="ignore"):
+                    y = x.astype(nt)
+                if np.array_equal(y.astype(x.dtype), x, equal_nan=True):
+                    return y
+            return x
+        return x
     if isinstance(x, list) and depth < 3:
         return [_variant_of(v, kind, depth + 1) for v in x]
     if isinstance(x, tuple) and depth < 3:
@@ -154,6 +170,30 @@ def _has_array(x, depth=0):
     if isinstance(x, (list, tuple)) and depth < 3:
         return any(_has_array(v, depth + 1) for v in x)
     return False
+
+
+def _sizes(x, out, depth=0):
+    if isinstance(x, np.ndarray):
+        out.add(int(x.size))
+        for n in x.shape:
+            out.add(int(n))
+    elif isinstance(x, (list, tuple)) and depth < 3:
+        for v in x:
+            _sizes(v, out, depth + 1)
+
+
+def _poison_heap(a, kw):
+    """Fill freshly freed heap blocks of the sizes the callee is likely to allocate with NaN: a result buffer
+    obtained with np.empty and not written completely then shows as NaN instead of (by luck) zeros."""
+    sizes = set()
+    _sizes(a, sizes)
+    _sizes(list(kw.values()), sizes)
+    junk = []
+    for n in sorted(sizes):
+        if 0 < n <= 200000:
+            for m in (n, n + 1, 2 * n, n * n if n <= 400 else n):
+                junk.append(np.full(m, np.nan))
+    del junk
 
 
 def _snap_result(r, depth=0):
@@ -260,6 +300,8 @@ class Ctx:
         call that writes into its arguments is reported by every check, at every call site."""
         self.transitions += 1
         before = [_snap(x) for x in a] + [_snap(kw[k]) for k in sorted(kw)]
+        if self.call_variants and getattr(fn, "__name__", "") in VARIANT_ENTRY_POINTS:
+            _poison_heap(a, kw)
         ok = False
         try:
             r = fn(*a, **kw)
@@ -300,6 +342,10 @@ class Ctx:
         if stride > 1 and self._variant_counter % stride:
             return
         kind = (self._variant_counter // max(1, stride)) % len(VARIANT_NAMES)
+        if VARIANT_NAMES[kind].startswith("float") and getattr(fn, "__name__", "") in ELEMENTWISE_ENTRY_POINTS:
+            # element-wise kernels / weights follow NumPy's convention (single precision in, single precision
+            # out): the narrow-float variants apply to the entry points that take DIAGRAMS
+            kind = 0
         name = getattr(fn, "__name__", repr(fn))
         if VARIANT_NAMES[kind] == "reused-buffer":
             # first the same call on what an EARLIER call left in the buffers (result discarded, any
